@@ -165,6 +165,9 @@ pub(crate) static mut RUN_LEN: [usize; RUNS_MAX] = [0; RUNS_MAX];
 pub(crate) static mut EXTRACT_CALLS: usize = 0;
 /// most runs the stand-in yields (a harness may lower it)
 pub(crate) static mut RUN_LIMIT: usize = RUNS_MAX;
+/// concrete number of runs / concrete text length (scripted harnesses); None = symbolic
+pub(crate) static mut RUN_FORCE_TOTAL: Option<usize> = None;
+pub(crate) static mut RUN_FORCE_TWO: Option<bool> = None;
 
 pub(crate) fn wincon_next_recorder(
     bytes: &mut &[u8],
@@ -174,7 +177,7 @@ pub(crate) fn wincon_next_recorder(
     unsafe {
         EXTRACT_CALLS += 1;
         if EXTRACT_CALLS == 1 {
-            RUN_TOTAL = vk::any_usize_in(0, RUN_LIMIT);
+            RUN_TOTAL = match RUN_FORCE_TOTAL { Some(n) => n, None => vk::any_usize_in(0, RUN_LIMIT) };
         }
         if RUN_N >= RUN_TOTAL {
             // exhausted: the whole chunk has been consumed
@@ -188,7 +191,8 @@ pub(crate) fn wincon_next_recorder(
         // the console stream never looks at the text, only at where it is and how long: concrete
         // one- or two-byte texts (String::push with symbolic characters drags Vec growth and UTF-8
         // encoding into every path)
-        let text = if vk::any_bool() { String::from("ab") } else { String::from("a") };
+        let two = match RUN_FORCE_TWO { Some(b) => b, None => vk::any_bool() };
+        let text = if two { String::from("ab") } else { String::from("a") };
         let i = RUN_N;
         RUN_STYLE[i] = Some(style);
         RUN_PTR[i] = text.as_ptr() as usize;
@@ -197,3 +201,151 @@ pub(crate) fn wincon_next_recorder(
         Some((style, text))
     }
 }
+
+// ---- run emission: `next_bytes` over a chunk, the parser replaced by an uninterpreted event source ----
+//
+// C07 says *which* callbacks a byte stream causes (that is C02, `Parser::advance` against S2) and what
+// each callback does to the style (the shape harnesses above).  What is left is `next_bytes`: it must
+// cut the text into runs exactly where the style in effect changes, tag each run with the style that
+// was in effect when its text was printed, lose nothing, and carry style and pending text correctly
+// from one call to the next.  Here `Parser::advance` is replaced by a stand-in that performs, per
+// input byte, an ARBITRARY one of: nothing, print, execute(LF), a style-setting SGR (`1`), a reset
+// SGR (`0`), a non-SGR CSI — through the real `Perform` impl of `WinconCapture` — and logs it
+// (`Parser::verif_advance_standin`, appended to the scratch copy of anstyle-parse: see inject.json).
+
+pub(crate) const EV_MAX: usize = 4;
+
+fn run_emission(n: usize, entry_bold: bool) {
+    let mut parser = anstyle_parse::Parser::<anstyle_parse::DefaultCharAccumulator>::new();
+    let mut cap = WinconCapture::default();
+    let plain = anstyle::Style::new();
+    let bold = anstyle::Style::new().bold();
+    if entry_bold {
+        cap.style = bold;
+    }
+    let chunk = [b'x'; EV_MAX];
+    let mut bytes: &[u8] = &chunk[..n];
+    // runs as delivered
+    let mut got_n = 0usize;
+    let mut got_bold = [false; EV_MAX];
+    let mut got_len = [0usize; EV_MAX];
+    let mut calls = 0;
+    while calls <= n {
+        calls += 1;
+        match next_bytes(&mut bytes, &mut parser, &mut cap) {
+            Some((style, text)) => {
+                assert!(style == plain || style == bold, "a run carries a style that was in effect");
+                assert!(!text.is_empty(), "no empty run is delivered");
+                if got_n < EV_MAX {
+                    got_bold[got_n] = style == bold;
+                    got_len[got_n] = text.len();
+                }
+                got_n += 1;
+            }
+            None => break,
+        }
+    }
+    assert!(bytes.is_empty(), "the whole chunk is consumed once the iterator is exhausted");
+    assert!(cap.printable.is_empty(), "no text is left behind when the iterator is exhausted");
+    let consumed = unsafe { anstyle_parse::VERIF_EV_N };
+    assert!(consumed == n, "every byte is given to the parser exactly once");
+    // reference: cut where the style in effect changes while text is pending
+    let mut cur_bold = entry_bold;
+    let mut pending = 0usize;
+    let mut want_n = 0usize;
+    let mut want_bold = [false; EV_MAX];
+    let mut want_len = [0usize; EV_MAX];
+    let mut i = 0;
+    while i < n {
+        let ev = unsafe { anstyle_parse::VERIF_EV_LOG[i] };
+        if ev == 1 || ev == 2 {
+            pending += 1;
+        } else if ev == 3 || ev == 4 {
+            let nb = ev == 3;
+            if nb != cur_bold && pending > 0 {
+                want_bold[want_n] = cur_bold;
+                want_len[want_n] = pending;
+                want_n += 1;
+                pending = 0;
+            }
+            cur_bold = nb;
+        }
+        i += 1;
+    }
+    if pending > 0 {
+        want_bold[want_n] = cur_bold;
+        want_len[want_n] = pending;
+        want_n += 1;
+    }
+    assert!(got_n == want_n, "text is cut into runs exactly where the style in effect changes");
+    let mut k = 0;
+    while k < EV_MAX {
+        if k < want_n {
+            assert!(got_len[k] == want_len[k], "each run holds exactly the text printed under its style, in order");
+            assert!(got_bold[k] == want_bold[k], "each run is tagged with the style in effect when its text was printed");
+        }
+        k += 1;
+    }
+    assert!((cap.style == bold) == cur_bold && (cap.style == plain) == !cur_bold, "the style in effect is carried to the next call");
+    vk::vk_cover!(want_n >= 2, "two runs from one chunk");
+}
+
+macro_rules! emission {
+    ($name:ident, $n:expr, $bold:expr) => {
+        #[cfg_attr(kani, kani::proof, kani::unwind(7), kani::stub(anstyle_parse::Parser::advance, anstyle_parse::Parser::verif_advance_standin))]
+        fn $name() {
+            run_emission($n, $bold);
+        }
+    };
+}
+emission!(sgr_run_emission_3_plain, 3, false);
+emission!(sgr_run_emission_3_bold, 3, true);
+emission!(sgr_run_emission_4_plain, 4, false);
+
+// ---- frame of `extract_next`: starting a new chunk changes nothing that is carried ----
+//
+// "The style persists across sequences and across calls", and an escape sequence or a character
+// cut by a chunk boundary continues in the next chunk (C03): `extract_next` may only clear the
+// `ready` marker; parser state, style in effect and the chunk handed to the iterator are untouched.
+// Carried parser states are reached by feeding concrete prefixes through the real parser.
+
+fn extract_frame(prefix: &'static [u8]) {
+    let mut st = WinconBytes::new();
+    let entry = any_astyle();
+    st.capture.style = style_of(&entry);
+    let mut i = 0;
+    while i < prefix.len() {
+        st.parser.advance(&mut st.capture, prefix[i]);
+        i += 1;
+    }
+    assert!(st.capture.printable.is_empty(), "harness: the prefixes produce no text");
+    let saved_parser = st.parser.clone();
+    let saved_style = st.capture.style;
+    if vk::any_bool() {
+        st.capture.ready = Some(anstyle::Style::new());
+    }
+    let chunk = [vk::any_u8(), vk::any_u8()];
+    let n = vk::any_usize_in(0, 2);
+    let it = st.extract_next(&chunk[..n]);
+    assert!(*it.parser == saved_parser, "extract_next leaves the carried parser state alone: a sequence or character cut by the chunk boundary continues");
+    assert!(it.capture.style == saved_style, "the style in effect persists across calls");
+    assert!(it.capture.printable.is_empty() && it.capture.ready.is_none(), "a new chunk starts with no pending run marker and no invented text");
+    assert!(it.bytes.as_ptr() == chunk.as_ptr() && it.bytes.len() == n, "the iterator is handed exactly the caller's chunk");
+    vk::vk_cover!(n == 2 && chunk[0] < 0x80, "a chunk starting with an ASCII byte");
+}
+
+macro_rules! frame {
+    ($name:ident, $prefix:expr) => {
+        #[cfg_attr(kani, kani::proof, kani::unwind(8))]
+        #[cfg_attr(not(kani), test)]
+        fn $name() {
+            extract_frame($prefix);
+        }
+    };
+}
+frame!(sgr_extract_frame_ground, b"");
+frame!(sgr_extract_frame_esc, b"\x1b");
+frame!(sgr_extract_frame_csi_param, b"\x1b[38;5");
+frame!(sgr_extract_frame_csi_colon, b"\x1b[4:");
+frame!(sgr_extract_frame_osc, b"\x1b]0;t");
+frame!(sgr_extract_frame_utf8, b"\xe2\x82");
